@@ -168,7 +168,12 @@ def run(R):
     flat = [l for l in L.input_loops(f) if "adapters::flatten::FlatMap<alloc::vec::into_iter::IntoIter<" + BUFREADER_FILE in (l.next.targs or [""])[0]
             and _line_source_problem(P, (l.next.targs or [""])[0]) is None]
     enum_outer = [l for l in L.input_loops(f) if _enum_of_files(l)]
-    if len(outer) == 1 and (outer[0].next.func.get("res_targs") or [""])[0] in (BUFREADER_FILE, "std::fs::File"):
+    part_drain = [c for c in f.calls if short(c.name) == "alloc::vec::Vec::drain" and
+                  "core::ops::range::RangeFull" not in (c.func.get("res_targs") or c.targs or [])]
+    if len(outer) == 1 and "drain::Drain" in short(outer[0].next.name) and part_drain:
+        R.violation("C12.iter", "FileExecutor::execute|file-loop", "the loop over the input files drains only a part of the reader list",
+                    [part_drain[0].loc()])
+    elif len(outer) == 1 and (outer[0].next.func.get("res_targs") or [""])[0] in (BUFREADER_FILE, "std::fs::File"):
         R.ok("C12.iter", "FileExecutor::execute|file-loop", "for reader in readers.into_iter()", outer[0].next.loc())
     elif not outer and len(enum_outer) == 1 and re.match(r"^alloc::vec::into_iter::IntoIter<(%s|std::fs::File)(, [^<>]*)?>$" % re.escape(BUFREADER_FILE),
                                                          ((enum_outer[0].next.func.get("res_targs") or enum_outer[0].next.targs) or [""])[0]):
